@@ -34,42 +34,32 @@ Section CpolInd.
 End CpolInd.
 
 (* ------------------------------------------------------------------ what lift computes *)
-(* the truth table the code gives a concrete policy: And is "at least 2 of the children" *)
-Fixpoint evalC2 (rho : spol -> bool) (p : cpol) : bool :=
-  match p with
-  | CUnsat => false
-  | CTriv => true
-  | CKey k => rho (SKey k)
-  | CAfter t => rho (SAfter t)
-  | COlder t => rho (SOlder t)
-  | CSha256 h => rho (SSha256 h)
-  | CHash256 h => rho (SHash256 h)
-  | CRipemd160 h => rho (SRipemd160 h)
-  | CHash160 h => rho (SHash160 h)
-  | CAnd subs => 2 <=? count_true (map (evalC2 rho) subs)
-  | COr subs => 1 <=? count_true (map (evalC2 rho) subs)
-  | CThresh k subs => k <=? count_true (map (evalC2 rho) subs)
-  end.
-
 Lemma lift_list_ok f l ss : lift_list f l = inr ss -> Forall2 (fun c s => f c = LOk s) l ss.
 Proof.
   revert ss. induction l as [|c r IH]; intros ss E; simpl in E.
   - inversion E. constructor.
-  - destruct (f c) as [s| |] eqn:Ec; try discriminate.
+  - destruct (f c) as [s|] eqn:Ec; try discriminate.
     destruct (lift_list f r) as [e|ss'] eqn:Er; [discriminate|].
     inversion E; subst. constructor; [exact Ec|apply IH; reflexivity].
 Qed.
-Lemma lift_list_err f l e : lift_list f l = inl e ->
-  exists c, In c l /\ f c = e /\ (forall s, e <> LOk s).
+Lemma lift_list_err f l e : lift_list f l = inl e -> exists c, In c l /\ f c = e /\ e = LErrTimelock.
 Proof.
   induction l as [|c r IH]; intro E; simpl in E; [discriminate|].
-  destruct (f c) as [s| |] eqn:Ec.
+  destruct (f c) as [s|] eqn:Ec.
   - destruct (lift_list f r) as [e'|ss'] eqn:Er; [|discriminate].
     inversion E; subst. destruct (IH eq_refl) as (c' & Hc' & Ef & Hn).
     exists c'. split; [right; exact Hc'|split; assumption].
-  - inversion E; subst. exists c. split; [left; reflexivity|split; [exact Ec|discriminate]].
-  - inversion E; subst. exists c. split; [left; reflexivity|split; [exact Ec|discriminate]].
+  - inversion E; subst. exists c. split; [left; reflexivity|split; [exact Ec|reflexivity]].
 Qed.
+Lemma lift_list_all_ok f l :
+  (forall c, In c l -> f c <> LErrTimelock) -> exists ss, lift_list f l = inr ss.
+Proof.
+  intro H. destruct (lift_list f l) as [e|ss] eqn:E; [|exists ss; reflexivity].
+  destruct (lift_list_err _ _ _ E) as (c & Hc & Ef & He). rewrite He in Ef. exfalso. exact (H c Hc Ef).
+Qed.
+
+Lemma Forall2_len {A B} (R : A -> B -> Prop) l l' : Forall2 R l l' -> length l = length l'.
+Proof. induction 1; simpl; congruence. Qed.
 
 Lemma lift_unfold p :
   lift p =
@@ -82,12 +72,12 @@ Lemma lift_unfold p :
        | CAnd subs =>
            match lift_list lift subs with
            | inl e => e
-           | inr ss => if (2 <=? length ss) then LOk (normalized (SThresh 2 ss)) else LPanic 1
+           | inr ss => if (1 <=? length ss) then LOk (normalized (SThresh (length ss) ss)) else LOk STriv
            end
        | COr subs =>
            match lift_list lift subs with
            | inl e => e
-           | inr ss => if (1 <=? length ss) then LOk (normalized (SThresh 1 ss)) else LPanic 2
+           | inr ss => if (1 <=? length ss) then LOk (normalized (SThresh 1 ss)) else LOk SUnsat
            end
        | CThresh k subs =>
            match lift_list lift subs with
@@ -98,62 +88,44 @@ Lemma lift_unfold p :
 Proof. destruct p; reflexivity. Qed.
 
 Lemma lifted_children_eval rho subs ss :
-  Forall (fun c => forall s, lift c = LOk s -> evalA rho s = evalC2 rho c) subs ->
+  Forall (fun c => forall s, lift c = LOk s -> evalA rho s = evalC rho c) subs ->
   Forall2 (fun c s => lift c = LOk s) subs ss ->
-  map (evalA rho) ss = map (evalC2 rho) subs.
+  map (evalA rho) ss = map (evalC rho) subs.
 Proof.
   intros HF H2. induction H2 as [|c s r rs Hcs Hr IH]; [reflexivity|].
   inversion HF; subst. cbn [map]. f_equal; [apply H1; exact Hcs|apply IH; assumption].
 Qed.
 
-(* lift returns a policy with the truth table [evalC2] *)
-Lemma lift_eval rho : forall p s, lift p = LOk s -> evalA rho s = evalC2 rho p.
+(* concrete policies lift to equivalent abstract ones: every policy, every arity of And / Or
+   (0 and 1 included), every assignment *)
+Theorem concrete_lift rho : forall p s, lift p = LOk s -> evalA rho s = evalC rho p.
 Proof.
   induction p using cpol_ind'; intros s E; rewrite lift_unfold in E;
     destruct (comb (timelock_info _)); try discriminate;
     try (inversion E; subst; reflexivity).
   - destruct (lift_list lift subs) as [e|ss] eqn:El.
-    + destruct (lift_list_err _ _ _ El) as (c & _ & _ & Hn). subst e. exfalso. eapply Hn. reflexivity.
-    + destruct (2 <=? length ss); [|discriminate]. injection E as <-.
-      change (norm_node 2 (map normalized ss)) with (normalized (SThresh 2 ss)).
-      rewrite normalized_eval. cbn [evalA evalC2].
-      rewrite (lifted_children_eval rho subs ss H (lift_list_ok _ _ _ El)). reflexivity.
+    + destruct (lift_list_err _ _ _ El) as (c & _ & _ & Hn). subst e. discriminate.
+    + pose proof (lift_list_ok _ _ _ El) as F2. pose proof (Forall2_len _ _ _ F2) as Hlen.
+      destruct (Nat.leb_spec 1 (length ss)); injection E as <-.
+      * change (norm_node (length ss) (map normalized ss)) with (normalized (SThresh (length ss) ss)).
+        rewrite normalized_eval. cbn [evalA evalC].
+        rewrite (lifted_children_eval rho subs ss H F2), forallb_count, Hlen. reflexivity.
+      * destruct ss; [|simpl in *; lia]. destruct subs; [reflexivity|discriminate].
   - destruct (lift_list lift subs) as [e|ss] eqn:El.
-    + destruct (lift_list_err _ _ _ El) as (c & _ & _ & Hn). subst e. exfalso. eapply Hn. reflexivity.
-    + destruct (1 <=? length ss); [|discriminate]. injection E as <-.
-      change (norm_node 1 (map normalized ss)) with (normalized (SThresh 1 ss)).
-      rewrite normalized_eval. cbn [evalA evalC2].
-      rewrite (lifted_children_eval rho subs ss H (lift_list_ok _ _ _ El)). reflexivity.
+    + destruct (lift_list_err _ _ _ El) as (c & _ & _ & Hn). subst e. discriminate.
+    + pose proof (lift_list_ok _ _ _ El) as F2. pose proof (Forall2_len _ _ _ F2) as Hlen.
+      destruct (Nat.leb_spec 1 (length ss)); injection E as <-.
+      * change (norm_node 1 (map normalized ss)) with (normalized (SThresh 1 ss)).
+        rewrite normalized_eval. cbn [evalA evalC].
+        rewrite (lifted_children_eval rho subs ss H F2), existsb_count. reflexivity.
+      * destruct ss; [|simpl in *; lia]. destruct subs; [reflexivity|discriminate].
   - destruct (lift_list lift subs) as [e|ss] eqn:El.
-    + destruct (lift_list_err _ _ _ El) as (c & _ & _ & Hn). subst e. exfalso. eapply Hn. reflexivity.
+    + destruct (lift_list_err _ _ _ El) as (c & _ & _ & Hn). subst e. discriminate.
     + injection E as <-.
       change (norm_node k (map normalized ss)) with (normalized (SThresh k ss)).
-      rewrite normalized_eval. cbn [evalA evalC2].
+      rewrite normalized_eval. cbn [evalA evalC].
       rewrite (lifted_children_eval rho subs ss H (lift_list_ok _ _ _ El)). reflexivity.
 Qed.
-
-(* with binary Ands (all FromStr can build) that is the intended truth table *)
-Lemma evalC2_binary rho : forall p, and_arity_bad p = false -> evalC2 rho p = evalC rho p.
-Proof.
-  induction p using cpol_ind'; intro B; try reflexivity; cbn [and_arity_bad] in B.
-  - apply orb_false_elim in B. destruct B as [B2 Bs]. apply negb_false_iff, Nat.eqb_eq in B2.
-    cbn [evalC2 evalC]. rewrite forallb_count, B2. f_equal. f_equal.
-    apply map_ext_Forall. apply Forall_forall. intros c Hc. rewrite Forall_forall in H. apply H; [exact Hc|].
-    destruct (and_arity_bad c) eqn:Ec; [|reflexivity].
-    assert (existsb and_arity_bad subs = true) by (apply existsb_exists; exists c; split; assumption). congruence.
-  - cbn [evalC2 evalC]. rewrite existsb_count. f_equal. f_equal.
-    apply map_ext_Forall. apply Forall_forall. intros c Hc. rewrite Forall_forall in H. apply H; [exact Hc|].
-    destruct (and_arity_bad c) eqn:Ec; [|reflexivity].
-    assert (existsb and_arity_bad subs = true) by (apply existsb_exists; exists c; split; assumption). congruence.
-  - cbn [evalC2 evalC]. f_equal. f_equal.
-    apply map_ext_Forall. apply Forall_forall. intros c Hc. rewrite Forall_forall in H. apply H; [exact Hc|].
-    destruct (and_arity_bad c) eqn:Ec; [|reflexivity].
-    assert (existsb and_arity_bad subs = true) by (apply existsb_exists; exists c; split; assumption). congruence.
-Qed.
-
-Theorem concrete_lift_binary p s :
-  and_arity_bad p = false -> lift p = LOk s -> forall rho, evalA rho s = evalC rho p.
-Proof. intros B E rho. rewrite (lift_eval rho p s E). apply evalC2_binary. exact B. Qed.
 
 (* the lifted policy is normalized *)
 Lemma lift_normal : forall p s, lift p = LOk s -> is_normal s = true.
@@ -161,22 +133,74 @@ Proof.
   intros p s E. rewrite lift_unfold in E. destruct (comb (timelock_info p)); [discriminate|].
   destruct p; try (inversion E; subst; reflexivity);
     destruct (lift_list lift subs) as [e|ss] eqn:El;
-    try (destruct (lift_list_err _ _ _ El) as (c & _ & _ & Hn); subst e; exfalso; eapply Hn; reflexivity).
-  - destruct (2 <=? length ss); [|discriminate]. injection E as <-. apply (normalized_normal (SThresh 2 ss)).
-  - destruct (1 <=? length ss); [|discriminate]. injection E as <-. apply (normalized_normal (SThresh 1 ss)).
+    try (destruct (lift_list_err _ _ _ El) as (c & _ & _ & Hn); subst e; discriminate).
+  - destruct (1 <=? length ss); injection E as <-; [apply (normalized_normal (SThresh (length ss) ss))|reflexivity].
+  - destruct (1 <=? length ss); injection E as <-; [apply (normalized_normal (SThresh 1 ss))|reflexivity].
   - injection E as <-. apply (normalized_normal (SThresh k ss)).
 Qed.
 
-(* the unrestricted statement is false: a 3-ary And lifts to 2-of-3, a 1-ary And panics *)
-Theorem concrete_lift_refuted :
-  (exists p s rho, cwf p = true /\ lift p = LOk s /\ evalA rho s <> evalC rho p) /\
-  (exists p, cwf p = true /\ lift p = LPanic 1).
+(* when lift refuses: exactly when check_timelocks rejects SOME sub-policy (lift re-runs the
+   check at every level) *)
+Lemma any_sub_rejected_unfold p :
+  any_sub_rejected p =
+  negb (check_timelocks p) ||
+  match p with
+  | CAnd subs | COr subs | CThresh _ subs => existsb any_sub_rejected subs
+  | _ => false
+  end.
+Proof. destruct p; reflexivity. Qed.
+
+Theorem lift_refusal : forall p, lift p = LErrTimelock <-> any_sub_rejected p = true.
 Proof.
-  split.
-  - exists (CAnd [CKey 0; CKey 1; CKey 2]), (SThresh 2 [SKey 0; SKey 1; SKey 2]),
-      (fun l => match l with SKey 2 => false | _ => true end).
-    split; [reflexivity|]. split; [reflexivity|]. simpl. discriminate.
-  - exists (CAnd [CKey 0]). split; reflexivity.
+  assert (Hnode : forall subs,
+            Forall (fun c => lift c = LErrTimelock <-> any_sub_rejected c = true) subs ->
+            ((exists e, lift_list lift subs = inl e) <-> existsb any_sub_rejected subs = true)).
+  { intros subs HF. rewrite Forall_forall in HF. split.
+    - intros (e & El). destruct (lift_list_err _ _ _ El) as (c & Hc & Ef & He). subst e.
+      apply existsb_exists. exists c. split; [exact Hc|apply (HF c Hc); exact He].
+    - intro Ex. apply existsb_exists in Ex. destruct Ex as (c & Hc & Rc).
+      destruct (lift_list lift subs) as [e|ss] eqn:El; [exists e; reflexivity|].
+      pose proof (lift_list_ok _ _ _ El) as F2. exfalso.
+      apply (HF c Hc) in Rc. clear - F2 Hc Rc.
+      induction F2 as [|c' s r rs Hcs Hr IH]; [contradiction|].
+      destruct Hc as [<-|Hc]; [congruence|apply IH; exact Hc]. }
+  induction p using cpol_ind'; rewrite lift_unfold, any_sub_rejected_unfold; unfold check_timelocks;
+    rewrite negb_involutive; destruct (comb (timelock_info _)) eqn:C; cbn [orb];
+    try (split; [reflexivity|reflexivity]); try (split; discriminate).
+  - rewrite <- (Hnode subs H). split.
+    + intro E. destruct (lift_list lift subs) as [e|ss]; [exists e; reflexivity|].
+      destruct (1 <=? length ss); discriminate.
+    + intros (e & El). rewrite El. destruct (lift_list_err _ _ _ El) as (_ & _ & _ & He). exact He.
+  - rewrite <- (Hnode subs H). split.
+    + intro E. destruct (lift_list lift subs) as [e|ss]; [exists e; reflexivity|].
+      destruct (1 <=? length ss); discriminate.
+    + intros (e & El). rewrite El. destruct (lift_list_err _ _ _ El) as (_ & _ & _ & He). exact He.
+  - rewrite <- (Hnode subs H). split.
+    + intro E. destruct (lift_list lift subs) as [e|ss]; [exists e; reflexivity|discriminate].
+    + intros (e & El). rewrite El. destruct (lift_list_err _ _ _ El) as (_ & _ & _ & He). exact He.
+Qed.
+
+(* outside the class [lift_refusal_defect] lift refuses exactly what check_timelocks refuses *)
+Theorem lift_err_iff p : lift_refusal_defect p = false ->
+  (lift p = LErrTimelock <-> check_timelocks p = false).
+Proof.
+  intro D. rewrite lift_refusal. unfold lift_refusal_defect in D.
+  rewrite any_sub_rejected_unfold in *. destruct (check_timelocks p); cbn [negb orb andb] in *.
+  - rewrite D. split; discriminate.
+  - split; reflexivity.
+Qed.
+
+(* full statement  forall p, lift p = LErrTimelock <-> check_timelocks p = false  is false on the
+   repaired code: an unsatisfiable branch that contains a mixing conjunction is ignored by
+   check_timelocks but still refused by the recursive check inside lift, even for a satisfiable
+   policy without any mixing path *)
+Theorem lift_refusal_exact_refuted :
+  exists p, cwf p = true /\ check_timelocks p = true /\ lift p = LErrTimelock /\
+            paths p <> [] /\ ~ has_mixed_path p.
+Proof.
+  exists (COr [CKey 0; CAnd [CAnd [CAfter 1; CAfter 500000001]; CUnsat]]).
+  repeat split; try reflexivity; try discriminate.
+  intros (pi & Hin & M). simpl in Hin. destruct Hin as [<-|[]]. discriminate.
 Qed.
 
 (* ================================================================== mixed time locks *)
@@ -209,7 +233,35 @@ Lemma combine_threshold_spec k l :
         (existsb comb l || ((1 <? k) && pairs l)).
 Proof. unfold combine_threshold. rewrite fold_combine. reflexivity. Qed.
 
-(* ------------------------------------------------------------------ nodes *)
+(* ------------------------------------------------------------------ satisfiable = has a path *)
+Definition nonnil {A} (l : list A) : bool := match l with [] => false | _ => true end.
+
+Lemma nonnil_app {A} (a b : list A) : nonnil (a ++ b) = nonnil a || nonnil b.
+Proof. destruct a; reflexivity. Qed.
+Lemma nonnil_map {A B} (f : A -> B) l : nonnil (map f l) = nonnil l.
+Proof. destruct l; reflexivity. Qed.
+Lemma nonnil_flat_map_map {A B} (f : A -> B -> B) (c : list A) (R : list B) :
+  nonnil (flat_map (fun x => map (f x) R) c) = nonnil c && nonnil R.
+Proof.
+  induction c as [|x r IH]; [reflexivity|]. cbn [flat_map]. rewrite nonnil_app, nonnil_map, IH.
+  destruct R, r; reflexivity.
+Qed.
+Lemma nonnil_true {A} (l : list A) : nonnil l = true <-> l <> [].
+Proof. destruct l; simpl; split; congruence. Qed.
+
+Lemma kpaths_nonnil : forall cs k, nonnil (kpaths k cs) = (k <=? count_true (map nonnil cs)).
+Proof.
+  induction cs as [|c r IH]; intro k.
+  - destruct k; reflexivity.
+  - destruct k as [|k']; [reflexivity|].
+    cbn [kpaths map]. rewrite nonnil_app, nonnil_flat_map_map, !IH, count_true_cons.
+    destruct c as [|pc pcs]; cbn [nonnil andb orb].
+    + reflexivity.
+    + destruct (Nat.leb_spec k' (count_true (map nonnil r)));
+        destruct (Nat.leb_spec (S k') (count_true (map nonnil r)));
+        destruct (Nat.leb_spec (S k') (1 + count_true (map nonnil r))); try reflexivity; lia.
+Qed.
+
 Definition node (p : cpol) : option (nat * list cpol) :=
   match p with
   | CAnd s => Some (length s, s)
@@ -217,13 +269,47 @@ Definition node (p : cpol) : option (nat * list cpol) :=
   | CThresh k s => Some (k, s)
   | _ => None
   end.
+
+(* the leaves that can take part in a satisfaction *)
+Fixpoint live_leaves (c : cpol) : list spol :=
+  if tl_sat c then
+    match c with
+    | CUnsat | CTriv => []
+    | CKey k => [SKey k] | CAfter t => [SAfter t] | COlder t => [SOlder t]
+    | CSha256 h => [SSha256 h] | CHash256 h => [SHash256 h]
+    | CRipemd160 h => [SRipemd160 h] | CHash160 h => [SHash160 h]
+    | CAnd subs | COr subs | CThresh _ subs => flat_map live_leaves subs
+    end
+  else [].
+
 Lemma node_facts p k subs : node p = Some (k, subs) ->
-  timelock_info p = combine_threshold k (map timelock_info subs) /\
+  tl_sat p = (k <=? count_true (map tl_sat subs)) /\
+  timelock_info p = (if tl_sat p then combine_threshold k (map timelock_info subs) else tli_default) /\
   paths p = kpaths k (map paths subs) /\
-  cleaves_of p = flat_map cleaves_of subs.
+  live_leaves p = (if tl_sat p then flat_map live_leaves subs else []).
 Proof. destruct p; intro E; inversion E; subst; repeat split; reflexivity. Qed.
 
-(* ------------------------------------------------------------------ flags = kinds of the leaves *)
+Lemma tl_sat_spec : forall p, tl_sat p = nonnil (paths p).
+Proof.
+  assert (Hn : forall p k subs, node p = Some (k, subs) ->
+               Forall (fun c => tl_sat c = nonnil (paths c)) subs -> tl_sat p = nonnil (paths p)).
+  { intros p k subs E HF. destruct (node_facts p k subs E) as (Es & _ & Ep & _).
+    rewrite Es, Ep, kpaths_nonnil, map_map. f_equal. f_equal. apply map_ext_Forall. exact HF. }
+  induction p using cpol_ind'; try reflexivity.
+  - apply (Hn (CAnd subs) _ subs eq_refl H).
+  - apply (Hn (COr subs) _ subs eq_refl H).
+  - apply (Hn (CThresh k subs) _ subs eq_refl H).
+Qed.
+Lemma unsat_no_paths c : tl_sat c = false -> paths c = [].
+Proof. rewrite tl_sat_spec. destruct (paths c); [reflexivity|discriminate]. Qed.
+Lemma path_sat c pi : In pi (paths c) -> tl_sat c = true.
+Proof. rewrite tl_sat_spec. destruct (paths c); [contradiction|reflexivity]. Qed.
+Lemma unsat_no_live c : tl_sat c = false -> live_leaves c = [].
+Proof. intro H. destruct c; simpl in *; rewrite ?H; try reflexivity; discriminate. Qed.
+Lemma unsat_tli c : tl_sat c = false -> timelock_info c = tli_default.
+Proof. intro H. destruct c; cbn [timelock_info]; rewrite ?H; reflexivity. Qed.
+
+(* ------------------------------------------------------------------ flags = kinds of the live leaves *)
 Lemma existsb_map {A B} (f : B -> bool) (g : A -> B) l : existsb f (map g l) = existsb (fun x => f (g x)) l.
 Proof. induction l; simpl; congruence. Qed.
 Lemma existsb_flat_map {A B} (f : B -> bool) (g : A -> list B) l :
@@ -233,15 +319,16 @@ Lemma existsb_ext_Forall {A} (f g : A -> bool) l : Forall (fun x => f x = g x) l
 Proof. induction 1; simpl; congruence. Qed.
 
 Definition flags_ok (p : cpol) : Prop :=
-  csv_h (timelock_info p) = existsb leaf_csv_h (cleaves_of p) /\
-  csv_t (timelock_info p) = existsb leaf_csv_t (cleaves_of p) /\
-  cltv_h (timelock_info p) = existsb leaf_cltv_h (cleaves_of p) /\
-  cltv_t (timelock_info p) = existsb leaf_cltv_t (cleaves_of p).
+  csv_h (timelock_info p) = existsb leaf_csv_h (live_leaves p) /\
+  csv_t (timelock_info p) = existsb leaf_csv_t (live_leaves p) /\
+  cltv_h (timelock_info p) = existsb leaf_cltv_h (live_leaves p) /\
+  cltv_t (timelock_info p) = existsb leaf_cltv_t (live_leaves p).
 
 Lemma node_flags p k subs : node p = Some (k, subs) -> Forall flags_ok subs -> flags_ok p.
 Proof.
-  intros E HF. destruct (node_facts p k subs E) as (Et & _ & El).
-  unfold flags_ok. rewrite Et, El, combine_threshold_spec. cbn [csv_h csv_t cltv_h cltv_t].
+  intros E HF. destruct (node_facts p k subs E) as (_ & Et & _ & El).
+  unfold flags_ok. rewrite Et, El. destruct (tl_sat p); [|repeat split; reflexivity].
+  rewrite combine_threshold_spec. cbn [csv_h csv_t cltv_h cltv_t].
   rewrite !existsb_map, !existsb_flat_map.
   repeat split; apply existsb_ext_Forall; eapply Forall_impl; try exact HF; intros c (F1 & F2 & F3 & F4); assumption.
 Qed.
@@ -258,7 +345,7 @@ Proof.
 Qed.
 
 (* conflicting pairs of children, for one pair of leaf kinds *)
-Definition cf (f : spol -> bool) (c : cpol) : bool := existsb f (cleaves_of c).
+Definition cf (f : spol -> bool) (c : cpol) : bool := existsb f (live_leaves c).
 Fixpoint pairsFG (f g : spol -> bool) (cs : list cpol) : bool :=
   match cs with
   | [] => false
@@ -273,7 +360,7 @@ Proof.
   cbn [map pairs pairsFG]. rewrite IH. unfold cross. rewrite !existsb_map.
   destruct (tli_flags c) as (F1 & F2 & F3 & F4). rewrite F1, F2, F3, F4.
   assert (E : forall (fl : tli -> bool) (lf : spol -> bool),
-             (forall c', fl (timelock_info c') = existsb lf (cleaves_of c')) ->
+             (forall c', fl (timelock_info c') = existsb lf (live_leaves c')) ->
              existsb (fun x => fl (timelock_info x)) r = existsb (cf lf) r).
   { intros fl lf Hf. apply existsb_ext_Forall. apply Forall_forall. intros c' _. apply Hf. }
   rewrite (E csv_h leaf_csv_h) by (intro c'; apply (tli_flags c')).
@@ -285,17 +372,19 @@ Qed.
 
 Lemma node_comb p k subs : node p = Some (k, subs) ->
   comb (timelock_info p)
-  = existsb (fun c => comb (timelock_info c)) subs
-    || ((1 <? k) && (pairsFG leaf_csv_h leaf_csv_t subs || pairsFG leaf_cltv_h leaf_cltv_t subs)).
+  = tl_sat p &&
+    (existsb (fun c => comb (timelock_info c)) subs
+     || ((1 <? k) && (pairsFG leaf_csv_h leaf_csv_t subs || pairsFG leaf_cltv_h leaf_cltv_t subs))).
 Proof.
-  intro E. destruct (node_facts p k subs E) as (Et & _ & _).
-  rewrite Et, combine_threshold_spec. cbn [comb]. rewrite existsb_map, pairs_children. reflexivity.
+  intro E. destruct (node_facts p k subs E) as (_ & Et & _ & _).
+  rewrite Et. destruct (tl_sat p); [|reflexivity].
+  rewrite combine_threshold_spec. cbn [comb andb]. rewrite existsb_map, pairs_children. reflexivity.
 Qed.
 
-(* ------------------------------------------------------------------ paths use leaves of the policy *)
-Lemma kpaths_incl : forall cs k pi,
-  (forall c pc, In c cs -> In pc (paths c) -> incl pc (cleaves_of c)) ->
-  In pi (kpaths k (map paths cs)) -> incl pi (flat_map cleaves_of cs).
+(* ------------------------------------------------------------------ paths use live leaves of the policy *)
+Lemma kpaths_incl (L : cpol -> list spol) : forall cs k pi,
+  (forall c pc, In c cs -> In pc (paths c) -> incl pc (L c)) ->
+  In pi (kpaths k (map paths cs)) -> incl pi (flat_map L cs).
 Proof.
   induction cs as [|c r IH]; intros k pi Hc Hin.
   - destruct k; simpl in Hin; [destruct Hin as [<-|[]]; apply incl_nil_l|contradiction].
@@ -310,17 +399,20 @@ Proof.
       intros c' pc' H1 H2. apply (Hc c' pc'); [right; exact H1|exact H2].
 Qed.
 
-Lemma paths_incl : forall p pi, In pi (paths p) -> incl pi (cleaves_of p).
+Lemma paths_incl : forall p pi, In pi (paths p) -> incl pi (live_leaves p).
 Proof.
+  assert (Hn : forall p k subs, node p = Some (k, subs) ->
+               Forall (fun c => forall pi, In pi (paths c) -> incl pi (live_leaves c)) subs ->
+               forall pi, In pi (paths p) -> incl pi (live_leaves p)).
+  { intros p k subs E HF pi Hin. destruct (node_facts p k subs E) as (_ & _ & Ep & El).
+    rewrite El, (path_sat p pi Hin). rewrite Ep in Hin.
+    eapply kpaths_incl; [|exact Hin]. intros c pc Hc. rewrite Forall_forall in HF. apply HF. exact Hc. }
   induction p using cpol_ind'; intros pi Hin;
     try (simpl in Hin; destruct Hin as [<-|[]]; try apply incl_refl; apply incl_nil_l);
     try contradiction.
-  - destruct (node_facts (CAnd subs) _ _ eq_refl) as (_ & Ep & El). rewrite Ep in Hin. rewrite El.
-    eapply kpaths_incl; [|exact Hin]. intros c pc Hc. rewrite Forall_forall in H. apply H. exact Hc.
-  - destruct (node_facts (COr subs) _ _ eq_refl) as (_ & Ep & El). rewrite Ep in Hin. rewrite El.
-    eapply kpaths_incl; [|exact Hin]. intros c pc Hc. rewrite Forall_forall in H. apply H. exact Hc.
-  - destruct (node_facts (CThresh k subs) _ _ eq_refl) as (_ & Ep & El). rewrite Ep in Hin. rewrite El.
-    eapply kpaths_incl; [|exact Hin]. intros c pc Hc. rewrite Forall_forall in H. apply H. exact Hc.
+  - apply (Hn (CAnd subs) _ subs eq_refl H pi Hin).
+  - apply (Hn (COr subs) _ subs eq_refl H pi Hin).
+  - apply (Hn (CThresh k subs) _ subs eq_refl H pi Hin).
 Qed.
 
 Lemma existsb_incl {A} (f : A -> bool) a b : incl a b -> existsb f a = true -> existsb f b = true.
@@ -335,7 +427,7 @@ Lemma kpaths_has g : forall cs k rho,
 Proof.
   intros cs k rho Hin Hg. split.
   - destruct k; [|lia]. destruct cs; simpl in Hin; destruct Hin as [<-|[]]; discriminate.
-  - assert (I : incl rho (flat_map cleaves_of cs)).
+  - assert (I : incl rho (flat_map live_leaves cs)).
     { eapply kpaths_incl; [|exact Hin]. intros c pc _. apply paths_incl. }
     pose proof (existsb_incl g _ _ I Hg) as E. rewrite existsb_flat_map in E. exact E.
 Qed.
@@ -380,8 +472,8 @@ Lemma node_mixed_sound p k subs : node p = Some (k, subs) ->
   Forall (fun c => forall pi, In pi (paths c) -> path_mixes pi = true -> comb (timelock_info c) = true) subs ->
   forall pi, In pi (paths p) -> path_mixes pi = true -> comb (timelock_info p) = true.
 Proof.
-  intros E HF pi Hin M. rewrite (node_comb p k subs E).
-  destruct (node_facts p k subs E) as (_ & Ep & _). rewrite Ep in Hin.
+  intros E HF pi Hin M. rewrite (node_comb p k subs E), (path_sat p pi Hin). cbn [andb].
+  destruct (node_facts p k subs E) as (_ & _ & Ep & _). rewrite Ep in Hin.
   assert (Hchild : forall c pc, In c subs -> In pc (paths c) -> path_mixes pc = true ->
                    existsb (fun c => comb (timelock_info c)) subs = true).
   { intros c pc Hc Hpc Mc. apply existsb_exists. exists c. split; [exact Hc|].
@@ -414,20 +506,7 @@ Proof.
   - eapply (node_mixed_sound (CThresh k subs)); [reflexivity|exact H|exact Hin|exact M].
 Qed.
 
-(* ------------------------------------------------------------------ exactness when every sub-policy is satisfiable *)
-Lemma kpaths_len : forall cs k, kpaths k cs <> [] -> k <= length cs.
-Proof.
-  induction cs as [|c r IH]; intros k H.
-  - destruct k; [simpl; lia|simpl in H; congruence].
-  - destruct k as [|k']; [simpl; lia|]. cbn [kpaths] in H. cbn [length].
-    destruct (kpaths (S k') r) eqn:E2.
-    + rewrite app_nil_r in H.
-      assert (kpaths k' r <> []).
-      { intro E. rewrite E in H. apply H. clear. induction c; simpl; auto. }
-      specialize (IH k' H0). lia.
-    + assert (kpaths (S k') r <> []) by (rewrite E2; discriminate). specialize (IH (S k') H0). lia.
-Qed.
-
+(* ------------------------------------------------------------------ building paths *)
 Lemma kpaths_extend0 : forall cs k,
   (forall c, In c cs -> paths c <> []) -> k <= length cs -> exists pi, In pi (kpaths k (map paths cs)).
 Proof.
@@ -514,14 +593,43 @@ Proof.
       rewrite !existsb_app, H2, H3, !orb_true_r. auto.
 Qed.
 
-Lemma all_sat_paths p : all_sat p = true -> paths p <> [].
+(* ------------------------------------------------------------------ exactness *)
+(* unsatisfiable children play no role on either side: drop them *)
+Lemma kpaths_0 cs : kpaths 0 cs = [[]].
+Proof. destruct cs; reflexivity. Qed.
+
+Lemma kpaths_filter : forall subs k,
+  kpaths k (map paths subs) = kpaths k (map paths (filter tl_sat subs)).
 Proof.
-  intro H. assert (E : negb (match paths p with [] => true | _ => false end) = true).
-  { destruct p; simpl in H; try (apply andb_prop in H; destruct H as [H _]); exact H. }
-  intro E'. rewrite E' in E. discriminate.
+  induction subs as [|c r IH]; intro k; [reflexivity|].
+  cbn [filter]. destruct (tl_sat c) eqn:Sc.
+  - destruct k as [|k']; [rewrite !kpaths_0; reflexivity|]. cbn [map kpaths]. rewrite (IH k'), (IH (S k')). reflexivity.
+  - destruct k as [|k']; [rewrite !kpaths_0; reflexivity|]. cbn [map kpaths]. rewrite (unsat_no_paths c Sc). cbn [flat_map app].
+    apply IH.
 Qed.
-Lemma all_sat_children p k subs : node p = Some (k, subs) -> all_sat p = true -> forallb all_sat subs = true.
-Proof. destruct p; intro E; inversion E; subst; simpl; intro H; apply andb_prop in H; destruct H as [_ H]; exact H. Qed.
+
+Lemma existsb_filter_irrelevant {A} (t h : A -> bool) l :
+  (forall x, t x = false -> h x = false) -> existsb h l = existsb h (filter t l).
+Proof.
+  intro H. induction l as [|x r IH]; [reflexivity|]. cbn [existsb filter].
+  destruct (t x) eqn:T; [cbn [existsb]; rewrite IH; reflexivity|rewrite (H x T), IH; reflexivity].
+Qed.
+
+Lemma unsat_cf h c : tl_sat c = false -> cf h c = false.
+Proof. intro S. unfold cf. rewrite (unsat_no_live c S). reflexivity. Qed.
+
+Lemma pairsFG_filter f g : forall subs, pairsFG f g subs = pairsFG f g (filter tl_sat subs).
+Proof.
+  induction subs as [|c r IH]; [reflexivity|]. cbn [pairsFG filter].
+  rewrite (existsb_filter_irrelevant tl_sat (cf g) r) by (intro x; apply unsat_cf).
+  rewrite (existsb_filter_irrelevant tl_sat (cf f) r) by (intro x; apply unsat_cf).
+  destruct (tl_sat c) eqn:S; [cbn [pairsFG]; rewrite IH; reflexivity|].
+  rewrite (unsat_cf f c S), (unsat_cf g c S), IH. reflexivity.
+Qed.
+
+Lemma count_true_filter (t : cpol -> bool) l : count_true (map t l) = length (filter t l).
+Proof. induction l as [|x r IH]; [reflexivity|]. cbn [map filter]. rewrite count_true_cons. destruct (t x); simpl; lia. Qed.
+
 Lemma cwf_children p k subs : node p = Some (k, subs) -> cwf p = true -> forallb cwf subs = true /\ (subs <> [] -> 1 <= k).
 Proof.
   destruct p; intro E; inversion E; subst; cbn [cwf]; intro H.
@@ -531,38 +639,44 @@ Proof.
     apply Nat.leb_le in H1. split; [exact Hs|intros _; exact H1].
 Qed.
 
-Lemma node_k_bounds p k subs : node p = Some (k, subs) -> cwf p = true -> all_sat p = true ->
-  (forall c, In c subs -> paths c <> []) /\ k <= length subs /\ (subs <> [] -> 1 <= k).
+(* what a satisfiable node looks like through its satisfiable children *)
+Lemma node_live p k subs : node p = Some (k, subs) -> cwf p = true -> tl_sat p = true ->
+  let cs := filter tl_sat subs in
+  paths p = kpaths k (map paths cs) /\
+  (forall c, In c cs -> In c subs /\ paths c <> [] /\ cwf c = true) /\
+  k <= length cs /\ (cs <> [] -> 1 <= k).
 Proof.
-  intros E W S. destruct (node_facts p k subs E) as (_ & Ep & _).
-  pose proof (all_sat_children p k subs E S) as Sc.
-  split; [|split].
-  - intros c Hc. apply all_sat_paths. eapply forallb_forall in Sc; eassumption.
-  - pose proof (all_sat_paths p S) as Hne. rewrite Ep in Hne. apply kpaths_len in Hne. rewrite map_length in Hne. exact Hne.
-  - apply (cwf_children p k subs E W).
+  intros E W S cs. destruct (node_facts p k subs E) as (Es & _ & Ep & _).
+  destruct (cwf_children p k subs E W) as [Wc H1].
+  split; [rewrite Ep; apply kpaths_filter|]. split; [|split].
+  - intros c Hc. apply filter_In in Hc. destruct Hc as [Hc Sc]. split; [exact Hc|]. split.
+    + apply nonnil_true. rewrite <- tl_sat_spec. exact Sc.
+    + eapply forallb_forall in Wc; eassumption.
+  - rewrite Es, count_true_filter in S. apply Nat.leb_le in S. exact S.
+  - intro Hn. apply H1. intro E0. subst subs. apply Hn. reflexivity.
 Qed.
 
-Lemma node_leaf_in_path p k subs : node p = Some (k, subs) -> cwf p = true -> all_sat p = true ->
-  Forall (fun c => cwf c = true -> all_sat c = true ->
-                   forall l, In l (cleaves_of c) -> exists pi, In pi (paths c) /\ In l pi) subs ->
-  forall l, In l (cleaves_of p) -> exists pi, In pi (paths p) /\ In l pi.
+Lemma node_leaf_in_path p k subs : node p = Some (k, subs) -> cwf p = true ->
+  Forall (fun c => cwf c = true -> forall l, In l (live_leaves c) -> exists pi, In pi (paths c) /\ In l pi) subs ->
+  forall l, In l (live_leaves p) -> exists pi, In pi (paths p) /\ In l pi.
 Proof.
-  intros E W S HF l Hl. destruct (node_facts p k subs E) as (_ & Ep & El).
-  destruct (node_k_bounds p k subs E W S) as (Hs & Hk & H1).
-  rewrite El in Hl. apply in_flat_map in Hl. destruct Hl as (c & Hc & Hl).
+  intros E W HF l Hl. destruct (node_facts p k subs E) as (_ & _ & _ & El).
+  rewrite El in Hl. destruct (tl_sat p) eqn:S; [|contradiction].
+  destruct (node_live p k subs E W S) as (Ep & Hcs & Hk & H1).
+  apply in_flat_map in Hl. destruct Hl as (c & Hc & Hl).
+  assert (Sc : tl_sat c = true) by (destruct (tl_sat c) eqn:Sc; [reflexivity|rewrite (unsat_no_live c Sc) in Hl; contradiction]).
+  assert (Hc' : In c (filter tl_sat subs)) by (apply filter_In; split; assumption).
   rewrite Forall_forall in HF.
-  pose proof (all_sat_children p k subs E S) as Sc. destruct (cwf_children p k subs E W) as [Wc _].
-  destruct (HF c Hc) with (l := l) as (pc & Hpc & Hlpc);
-    [eapply forallb_forall in Wc; eassumption|eapply forallb_forall in Sc; eassumption|exact Hl|].
-  destruct (kpaths_extend1 subs k c pc Hs) as (pi & Hpi & Hi);
-    [split; [apply H1; intro En; rewrite En in Hc; contradiction|exact Hk]|exact Hc|exact Hpc|].
+  destruct (HF c Hc) with (l := l) as (pc & Hpc & Hlpc); [apply (Hcs c Hc')|exact Hl|].
+  destruct (kpaths_extend1 (filter tl_sat subs) k c pc) as (pi & Hpi & Hi);
+    [intros c0 Hc0; apply (Hcs c0 Hc0)|split; [apply H1; intro En; rewrite En in Hc'; contradiction|exact Hk]|exact Hc'|exact Hpc|].
   exists pi. rewrite Ep. split; [exact Hpi|apply Hi; exact Hlpc].
 Qed.
 
-Lemma leaf_in_path : forall p, cwf p = true -> all_sat p = true ->
-  forall l, In l (cleaves_of p) -> exists pi, In pi (paths p) /\ In l pi.
+Lemma leaf_in_path : forall p, cwf p = true ->
+  forall l, In l (live_leaves p) -> exists pi, In pi (paths p) /\ In l pi.
 Proof.
-  induction p using cpol_ind'; intros W S l Hl;
+  induction p using cpol_ind'; intros W l Hl;
     try (simpl in Hl; destruct Hl as [<-|[]]; eexists; split; [left; reflexivity|left; reflexivity]);
     try contradiction.
   - eapply (node_leaf_in_path (CAnd subs)); try reflexivity; eassumption.
@@ -576,92 +690,57 @@ Proof.
     rewrite (existsb_incl _ _ _ I H1), (existsb_incl _ _ _ I H2); [reflexivity|apply orb_true_r].
 Qed.
 
-Lemma node_mixed_exact p k subs : node p = Some (k, subs) -> cwf p = true -> all_sat p = true ->
-  Forall (fun c => cwf c = true -> all_sat c = true -> comb (timelock_info c) = true -> has_mixed_path c) subs ->
+Lemma node_mixed_exact p k subs : node p = Some (k, subs) -> cwf p = true ->
+  Forall (fun c => cwf c = true -> comb (timelock_info c) = true -> has_mixed_path c) subs ->
   comb (timelock_info p) = true -> has_mixed_path p.
 Proof.
-  intros E W S HF C. rewrite (node_comb p k subs E) in C.
-  destruct (node_facts p k subs E) as (_ & Ep & _).
-  destruct (node_k_bounds p k subs E W S) as (Hs & Hk & H1).
-  pose proof (all_sat_children p k subs E S) as Sc. destruct (cwf_children p k subs E W) as [Wc _].
+  intros E W HF C. rewrite (node_comb p k subs E) in C.
+  apply andb_prop in C. destruct C as [S C].
+  destruct (node_live p k subs E W S) as (Ep & Hcs & Hk & H1).
+  set (cs := filter tl_sat subs) in *.
+  rewrite (existsb_filter_irrelevant tl_sat (fun c => comb (timelock_info c)) subs) in C
+    by (intros x Sx; rewrite (unsat_tli x Sx); reflexivity).
+  rewrite (pairsFG_filter leaf_csv_h leaf_csv_t subs), (pairsFG_filter leaf_cltv_h leaf_cltv_t subs) in C.
+  fold cs in C.
+  assert (Hs : forall c, In c cs -> paths c <> []) by (intros c Hc; apply (Hcs c Hc)).
   unfold has_mixed_path. rewrite Ep.
   apply orb_prop in C. destruct C as [C|C].
   - apply existsb_exists in C. destruct C as (c & Hc & Cc).
     rewrite Forall_forall in HF.
-    destruct (HF c Hc) as (pc & Hpc & Mc);
-      [eapply forallb_forall in Wc; eassumption|eapply forallb_forall in Sc; eassumption|exact Cc|].
-    destruct (kpaths_extend1 subs k c pc Hs) as (pi & Hpi & Hi);
+    destruct (HF c) as (pc & Hpc & Mc); [apply (Hcs c Hc)|apply (Hcs c Hc)|exact Cc|].
+    destruct (kpaths_extend1 cs k c pc Hs) as (pi & Hpi & Hi);
       [split; [apply H1; intro En; rewrite En in Hc; contradiction|exact Hk]|exact Hc|exact Hpc|].
     exists pi. split; [exact Hpi|eapply path_mixes_incl; eassumption].
   - apply andb_prop in C. destruct C as [K Pr]. apply Nat.ltb_lt in K.
-    assert (Hl : forall c h, In c subs -> cf h c = true -> exists pc, In pc (paths c) /\ existsb h pc = true).
+    assert (Hl : forall c h, In c cs -> cf h c = true -> exists pc, In pc (paths c) /\ existsb h pc = true).
     { intros c h Hc Cf. unfold cf in Cf. apply existsb_exists in Cf. destruct Cf as (l & Hl & Fl).
-      destruct (leaf_in_path c) with (l := l) as (pc & Hpc & Hlpc);
-        [eapply forallb_forall in Wc; eassumption|eapply forallb_forall in Sc; eassumption|exact Hl|].
+      destruct (leaf_in_path c) with (l := l) as (pc & Hpc & Hlpc); [apply (Hcs c Hc)|exact Hl|].
       exists pc. split; [exact Hpc|]. apply existsb_exists. exists l. split; assumption. }
     apply orb_prop in Pr. destruct Pr as [Pr|Pr].
-    + destruct (kpaths_extend2 leaf_csv_h leaf_csv_t subs k Hs Hl) as (pi & H2 & H3 & H4); [lia|exact Pr|].
+    + destruct (kpaths_extend2 leaf_csv_h leaf_csv_t cs k Hs Hl) as (pi & H2 & H3 & H4); [lia|exact Pr|].
       exists pi. split; [exact H2|]. unfold path_mixes. rewrite H3, H4. reflexivity.
-    + destruct (kpaths_extend2 leaf_cltv_h leaf_cltv_t subs k Hs Hl) as (pi & H2 & H3 & H4); [lia|exact Pr|].
+    + destruct (kpaths_extend2 leaf_cltv_h leaf_cltv_t cs k Hs Hl) as (pi & H2 & H3 & H4); [lia|exact Pr|].
       exists pi. split; [exact H2|]. unfold path_mixes. rewrite H3, H4. apply orb_true_r.
 Qed.
 
-Lemma mixed_complete : forall p, cwf p = true -> all_sat p = true ->
-  comb (timelock_info p) = true -> has_mixed_path p.
+Lemma mixed_complete : forall p, cwf p = true -> comb (timelock_info p) = true -> has_mixed_path p.
 Proof.
-  induction p using cpol_ind'; intros W S C; try discriminate.
+  induction p using cpol_ind'; intros W C; try discriminate; try (cbn in C; discriminate).
   - eapply (node_mixed_exact (CAnd subs)); try reflexivity; eassumption.
   - eapply (node_mixed_exact (COr subs)); try reflexivity; eassumption.
   - eapply (node_mixed_exact (CThresh k subs)); try reflexivity; eassumption.
 Qed.
 
-(* fires exactly when some satisfying path mixes, provided every sub-policy is satisfiable *)
-Theorem mixed_exact p : cwf p = true -> all_sat p = true ->
-  (check_timelocks p = false <-> has_mixed_path p).
+(* the mixed-time-lock check fires exactly when some satisfying path needs both a height-based
+   and a time-based lock of the same kind: every well-formed policy *)
+Theorem mixed_exact p : cwf p = true -> (check_timelocks p = false <-> has_mixed_path p).
 Proof.
-  intros W S. split; [|apply mixed_sound].
+  intro W. split; [|apply mixed_sound].
   unfold check_timelocks. intro H. apply negb_false_iff in H. apply mixed_complete; assumption.
-Qed.
-
-(* without the side condition the check also fires on unsatisfiable conjunctions *)
-Theorem mixed_exact_refuted :
-  exists p, cwf p = true /\ check_timelocks p = false /\ ~ has_mixed_path p.
-Proof.
-  exists (CAnd [CAfter 1; CAnd [CAfter 500000001; CUnsat]]).
-  split; [reflexivity|]. split; [reflexivity|]. intros (pi & Hin & _). exact Hin.
 Qed.
 
 (* the executable form used by the oracle *)
 Lemma mixed_b_spec p : mixed_b p = true <-> has_mixed_path p.
 Proof.
   unfold mixed_b, has_mixed_path. rewrite existsb_exists. reflexivity.
-Qed.
-
-(* lift refuses exactly the policies check_timelocks refuses (when it does not panic) *)
-Lemma node_comb_child p k subs c : node p = Some (k, subs) -> In c subs ->
-  comb (timelock_info c) = true -> comb (timelock_info p) = true.
-Proof.
-  intros E Hc C. rewrite (node_comb p k subs E).
-  replace (existsb (fun c => comb (timelock_info c)) subs) with true; [reflexivity|].
-  symmetry. apply existsb_exists. exists c. split; assumption.
-Qed.
-
-Theorem lift_err_iff : forall p, lift p = LErrTimelock <-> check_timelocks p = false.
-Proof.
-  unfold check_timelocks. intro p. rewrite negb_false_iff. split.
-  - induction p using cpol_ind'; intro E; rewrite lift_unfold in E;
-      destruct (comb (timelock_info _)) eqn:C; try reflexivity; try discriminate.
-    + destruct (lift_list lift subs) as [e|ss] eqn:El; [|destruct (2 <=? length ss); discriminate].
-      destruct (lift_list_err _ _ _ El) as (c & Hc & Ec & _). subst e.
-      rewrite Forall_forall in H. specialize (H c Hc Ec).
-      rewrite (node_comb_child (CAnd subs) _ _ c eq_refl Hc H) in C. discriminate.
-    + destruct (lift_list lift subs) as [e|ss] eqn:El; [|destruct (1 <=? length ss); discriminate].
-      destruct (lift_list_err _ _ _ El) as (c & Hc & Ec & _). subst e.
-      rewrite Forall_forall in H. specialize (H c Hc Ec).
-      rewrite (node_comb_child (COr subs) _ _ c eq_refl Hc H) in C. discriminate.
-    + destruct (lift_list lift subs) as [e|ss] eqn:El; [|discriminate].
-      destruct (lift_list_err _ _ _ El) as (c & Hc & Ec & _). subst e.
-      rewrite Forall_forall in H. specialize (H c Hc Ec).
-      rewrite (node_comb_child (CThresh k subs) _ _ c eq_refl Hc H) in C. discriminate.
-  - intro C. rewrite lift_unfold, C. reflexivity.
 Qed.
